@@ -41,6 +41,10 @@ def sets_of(parsed):
     return (set(parsed.variables_used), set(parsed.functions_used), set(parsed.suffixes_used))
 
 
+def is_expression(obj):
+    return all(hasattr(obj, a) for a in ('variables_used', 'functions_used', 'suffixes_used'))
+
+
 def anyfunc(*args):
     return 1.25
 
@@ -168,7 +172,8 @@ class ExtraNames(Family):
 
 # --------------------------------------------------------------------------- history search
 
-STRINGS_Q = ['x+y', 'x + y', 'X+y', 'f(x)', 'x', '2k', 'x+', 'f(x', '2x(', 'x y', 'x\ty']
+DEEP = 'f(y)+2k+' + '(' * 150 + '1' + ')' * 150       # balanced, but too deep for the recursive grammar
+STRINGS_Q = ['x+y', 'x + y', 'X+y', 'f(x)', 'x', '2k', 'x+', 'f(x', '2x(', 'x y', 'x\ty', 'x +', DEEP]
 STRINGS_T = STRINGS_Q + ['x+\ty', 'f', 'sin(x)+sin(y)', '(x))', '']
 FULL_V = {'x': 2.0, 'y': 3.0, 'X': 5.0, 'f': 7.0, 'xy': 11.0}
 FULL_F = {'f': lambda t: t + 1, 'sin': math.sin}
@@ -240,7 +245,8 @@ class ParserHistory(BFSFamily):
 
     def state_key(self, ctx):
         p = ctx.parser
-        cache = tuple(sorted((k, tuple(tuple(sorted(x)) for x in sets_of(v))) for k, v in p.cache.items()))
+        cache = tuple(sorted((k, tuple(tuple(sorted(x)) for x in sets_of(v)) if is_expression(v)
+                              else ('not-an-expression', type(v).__name__, str(v))) for k, v in p.cache.items()))
         return (cache, tuple(sorted(p.variables_used)), tuple(sorted(p.functions_used)),
                 tuple(sorted(p.suffixes_used)), p.max_array_dim_used)
 
@@ -266,6 +272,8 @@ class ParserHistory(BFSFamily):
             return viol('history:scratch-sets-not-empty', 'scratch sets not empty after a call: %r %r %r'
                         % (p.variables_used, p.functions_used, p.suffixes_used))
         for k, v in p.cache.items():
+            if not is_expression(v):
+                continue        # something else remembered under this key: judged through the observations
             try:
                 _, rv, rf, rs = R.parse(k)
             except R.RefParseError:
